@@ -33,8 +33,9 @@ type (
 	SIndex struct{ X, I SExpr }
 	SSlice struct{ X, Lo, Hi SExpr }
 	SCall  struct {
-		Fn   string
-		Args []SExpr
+		Fn     string
+		Args   []SExpr
+		Method bool // Args[0] is the receiver
 	}
 	SQuant struct {
 		Forall bool
@@ -305,6 +306,19 @@ func (p *sparser) postfix() SExpr {
 			if t.k != "id" && t.k != "num" {
 				p.fail("expected field name")
 			}
+			if p.isOp("(") && t.k == "id" {
+				p.p++
+				args := []SExpr{e}
+				for !p.isOp(")") {
+					args = append(args, p.expr())
+					if p.isOp(",") {
+						p.p++
+					}
+				}
+				p.expect(")")
+				e = &SCall{Fn: t.v, Args: args, Method: true}
+				continue
+			}
 			e = &SField{e, t.v}
 		case p.isOp("["):
 			p.p++
@@ -358,7 +372,7 @@ func (p *sparser) primary() SExpr {
 				}
 				return &SOld{args[0]}
 			}
-			return &SCall{t.v, args}
+			return &SCall{Fn: t.v, Args: args}
 		}
 		return &SIdent{t.v}
 	case "op":
